@@ -275,6 +275,30 @@ def masquerade(kinds):
         elif k == "backend-fips":
             from cryptography.hazmat.backends.openssl.backend import backend
             backend._fips_enabled = True
+        elif k.startswith("clock:"):
+            # the wall clock as Python code sees it (time.time, datetime.now / utcnow / today, date.today) moved to a remarkable instant; OpenSSL's own clock cannot be
+            # moved this way, so the cases that run chains at the REAL clock are left out of the comparison for these environments (fw.env_invariance)
+            import calendar, time as _time, datetime as _dt
+            target = {"leapday": (2028, 2, 29, 12, 0, 0), "y2038": (2038, 1, 19, 3, 14, 10), "newyear": (2030, 12, 31, 23, 59, 58), "far": (2090, 6, 15, 0, 0, 0), "sunday": (2027, 8, 1, 2, 30, 0), "past": (2019, 7, 1, 0, 0, 0)}[k.split(":", 1)[1]]
+            delta = calendar.timegm(target + (0, 0, 0)) - _time.time()
+            real_time, real_ns, real_dt, real_date = _time.time, _time.time_ns, _dt.datetime, _dt.date
+            _time.time = lambda: real_time() + delta
+            _time.time_ns = lambda: real_ns() + int(delta * 1e9)
+            class _DateTime(real_dt):
+                @classmethod
+                def now(cls, tz=None):
+                    return real_dt.fromtimestamp(_time.time(), tz)
+                @classmethod
+                def utcnow(cls):
+                    return real_dt.fromtimestamp(_time.time(), _dt.timezone.utc).replace(tzinfo=None)
+                @classmethod
+                def today(cls):
+                    return real_dt.fromtimestamp(_time.time())
+            class _Date(real_date):
+                @classmethod
+                def today(cls):
+                    return real_dt.fromtimestamp(_time.time()).date()
+            _dt.datetime, _dt.date = _DateTime, _Date
         elif k == "small-recursion":
             sys.setrecursionlimit(220)
         elif k == "maxsize32":
